@@ -1424,12 +1424,44 @@ def install(prog):
     def b_var_os(ctx, a, callee):
         return NONE
 
-    @B('args', 'std::env::args', 'vars', 'std::env::vars', 'std::env::args_os', 'std::env::vars_os')
+    @B('args', 'std::env::args', 'vars', 'std::env::vars', 'args_os', 'std::env::args_os', 'vars_os', 'std::env::vars_os')
     def b_env_iter(ctx, a, callee):
         # the process environment is what the harness says it is (ctx.process_env: list of (name, value)); empty by default
         if 'vars' in callee:
-            return it_seq([tup(n, v) for n, v in getattr(ctx, 'process_env', ())])
+            env = list(getattr(ctx, 'process_env', ()))
+            if not callee.endswith('_os'):
+                # std::env::vars: "the returned iterator will panic if any key or value in the environment is not valid unicode"
+                for n, v in env:
+                    for x in (n, v):
+                        if not_unicode(ctx, x):
+                            raise Panic('called `Result::unwrap()` on an `Err` value: environment variable is not valid unicode', ctx.where())
+            return it_seq([tup(n, v) for n, v in env])
         return it_seq([])
+
+    def not_unicode(ctx, x):
+        """is this OS string (str | SymStr | bytes) not valid UTF-8? (symbolic strings: decided for one-byte strings, the bound of the
+        harnesses that use them)"""
+        if type(x) is bytes:
+            try:
+                x.decode('utf-8')
+                return False
+            except UnicodeDecodeError:
+                return True
+        if type(x) is SymStr and any(is_sym(c) for c in x.bytes):
+            if len(x.bytes) != 1:
+                for c in x.bytes:
+                    if is_sym(c) and ctx.branch(z3.UGE(c, 0x80)):
+                        raise Unsupported('unicode validity of a symbolic multi-byte OS string')
+                return False
+            return ctx.branch(z3.UGE(x.bytes[0], 0x80))
+        return False
+
+    @B('OsString::into_string', 'std::ffi::OsString::into_string')
+    def b_osstring_into_string(ctx, a, callee):
+        v = D(a[0])
+        if type(v) is PathV:
+            v = v.to_str()
+        return err(v) if not_unicode(ctx, v) else ok(v)
 
     @B('OsStr::len', 'OsString::len', 'OsStr::is_empty')
     def b_osstr_len(ctx, a, callee):
